@@ -7,6 +7,10 @@
 (*   bufs   storage blocks with identity: [live, cont].  A block is created    *)
 (*          by a source container (std::vector / std::array), by an owning     *)
 (*          wrapper that copies its input, and dies when its owner lets go.    *)
+(*          `cont` is a RUN LIST (constant runs and runs of the arithmetic      *)
+(*          pattern (b + o + j) % 251): contents of 65 537 elements cost as    *)
+(*          much as contents of 3, so sizes around internal boundaries (256,   *)
+(*          4096, 65 536 elements or bytes) are ordinary sizes of the model.   *)
 (*   src    source containers the harness builds, mutates, resizes, destroys   *)
 (*          (1..NV are std::vector-like, NV+1..NV+NA std::array-like).         *)
 (*   wr     wrapper slots [st, kind, buf, off, len]: the wrapper designates    *)
@@ -24,9 +28,11 @@
 (* A block of the Fixed family lives as long as any FixedArray / FixedArrayView*)
 (* designating it is alive.                                                    *)
 (*                                                                             *)
-(* Ghost variable `last` = [a, arg, cls, ns, dang, exp]: action, arguments,    *)
-(* signature class, number of sources, which slots are dangling (the driver    *)
-(* must not read through those), and every observable the statement constrains *)
+(* Ghost variable `last` = [a, arg, cls, ns, dang, moved, pos, probes, exp]:   *)
+(* action, arguments, signature class, number of sources, which slots are      *)
+(* dangling (the driver must not read through those), which are moved-from,    *)
+(* the element positions sampled on large wrappers / sources, the out-of-range *)
+(* indices at() is probed with, and every observable the statement constrains  *)
 (* after the step, for EVERY slot and source.                                  *)
 (*                                                                             *)
 (* Variant # "contract" are negative controls shaped like the real headers     *)
@@ -35,13 +41,15 @@ EXTENDS Integers, Sequences, FiniteSets, TLC
 
 CONSTANTS NW,       \* number of wrapper slots
           NV,       \* number of std::vector-like sources (ids 1..NV)
-          NA,       \* number of std::array-like sources (ids NV+1..NV+NA)
+          NA,       \* number of std::array-like sources (ids NV+1..NV+NA; sizes ArrLen, 1, 0, 0, ...)
           Kinds,    \* wrapper kinds that may be constructed in this instance
           Modes,    \* construction / assignment modes enabled in this instance
-          Acts,     \* action names enabled in this instance
-          MaxLen,   \* largest vector size / resize size
-          ArrLen,   \* size of the std::array sources
-          PtrSel,   \* "all": every (offset, length) for pointer+size inputs; "few" / "some": fixed selections
+          Acts,     \* action names enabled in this instance (+ "SelfAssign", "SelfPtr", "SelfVal", "EdgeEmpty")
+          Sizes,    \* vector sizes, resize targets, FixedArray(size) sizes
+          MaxLen,   \* largest element of Sizes
+          ArrLen,   \* size of the first std::array source
+          PtrSel,   \* "all": every (offset, length) for pointer+size inputs; "few" / "some" / "big": fixed selections
+          Palettes, \* {0}: sources start with the arithmetic pattern; p > 0: byte p-1 first, byte 256-p last
           Sym,      \* TRUE: construct only into the lowest dead slot (slots are interchangeable)
           Excl,     \* generation only: "kind,mode" inputs and "FixedArray,reassign-fviewed" left out of
                     \* random walks (so that long walks get past histories with listed findings); {} otherwise
@@ -59,7 +67,9 @@ PtrKinds == {AV, OA, FA}           \* kinds constructible from vector / std::arr
 Slots == 1..NW
 Srcs  == 1..(NV + NA)
 IsVec(s) == s <= NV
+ArrLenOf(s) == IF s = NV + 1 THEN ArrLen ELSE IF s = NV + 2 THEN 1 ELSE 0
 Bufs  == 1..(NW + NV + NA + 1)
+Explicit == 8                      \* wrappers / sources of at most this many elements are observed element by element
 
 VARIABLES wr, src, bufs, last
 vars == <<wr, src, bufs, last>>
@@ -69,14 +79,83 @@ DeadW == [st |-> "dead", kind |-> "none", buf |-> 0, off |-> 0, len |-> 0]
 DeadS == [st |-> "dead", buf |-> 0]
 Mk(k, b, o, n) == IF n = 0 THEN [st |-> "live", kind |-> k, buf |-> 0, off |-> 0, len |-> 0]
                            ELSE [st |-> "live", kind |-> k, buf |-> b, off |-> o, len |-> n]
+MovedW(k) == [st |-> "moved", kind |-> k, buf |-> 0, off |-> 0, len |-> 0]
+
+-------------------------------------------------------------------------------
+\* Contents as run lists.  A run is n elements: constant b ("c"), or (b + o + j) % 251, j = 0..n-1 ("p").
+Modulus == 251
+Run(t, b, o, n) == [t |-> t, b |-> b, o |-> o, n |-> n]
+CConst(n, v) == IF n = 0 THEN <<>> ELSE <<Run("c", v, 0, n)>>
+CPat(b, o, n) == IF n = 0 THEN <<>>
+                 ELSE IF n = 1 THEN <<Run("c", (b + o) % Modulus, 0, 1)>>
+                 ELSE <<Run("p", b % Modulus, o % Modulus, n)>>
+RunVal(r, j) == IF r.t = "c" THEN r.b ELSE (r.b + r.o + j) % Modulus
+SubRun(r, off, k) == IF r.t = "c" THEN Run("c", r.b, 0, k)
+                     ELSE IF k = 1 THEN Run("c", RunVal(r, off), 0, 1)
+                     ELSE Run("p", r.b, (r.o + off) % Modulus, k)
+Min2(a, b) == IF a <= b THEN a ELSE b
+
+RECURSIVE CLen(_)
+CLen(c) == IF c = <<>> THEN 0 ELSE Head(c).n + CLen(Tail(c))
+
+\* merge neighbouring runs that continue each other
+Continues(r1, r2) == \/ r1.t = "c" /\ r2.t = "c" /\ r1.b = r2.b
+                     \/ r1.t = "p" /\ r2.t = "p" /\ r1.b = r2.b /\ r2.o = (r1.o + r1.n) % Modulus
+RECURSIVE CNorm(_)
+CNorm(c) == IF Len(c) < 2 THEN c
+            ELSE IF Continues(c[1], c[2])
+                 THEN CNorm(<<Run(c[1].t, c[1].b, c[1].o, c[1].n + c[2].n)>> \o Tail(Tail(c)))
+                 ELSE <<c[1]>> \o CNorm(Tail(c))
+
+\* elements off .. off+n-1 (0-based)
+RECURSIVE CSliceRaw(_, _, _)
+CSliceRaw(c, off, n) ==
+  IF n = 0 \/ c = <<>> THEN <<>>
+  ELSE LET r == Head(c) IN
+       IF off >= r.n THEN CSliceRaw(Tail(c), off - r.n, n)
+       ELSE LET k == Min2(n, r.n - off) IN <<SubRun(r, off, k)>> \o CSliceRaw(Tail(c), 0, n - k)
+CSlice(c, off, n) == CNorm(CSliceRaw(c, off, n))
+CCat(a, b) == CNorm(a \o b)
+CSet(c, i, v) == CNorm(CSliceRaw(c, 0, i) \o CConst(1, v) \o CSliceRaw(c, i + 1, CLen(c) - i - 1))
+CResize(c, n, v) == IF n <= CLen(c) THEN CSlice(c, 0, n) ELSE CCat(c, CConst(n - CLen(c), v))
+RECURSIVE CAt(_, _)
+CAt(c, i) == IF i < Head(c).n THEN RunVal(Head(c), i) ELSE CAt(Tail(c), i - Head(c).n)
+CExpand(c) == [i \in 1..CLen(c) |-> CAt(c, i - 1)]
+
+\* sum of all elements (at most 65 538 * 255 < 2^31)
+\* sum of (a + j) % 251 for j < r <= 250: an arithmetic series, continued from 0 after the wrap
+Tri(k) == (k * (k - 1)) \div 2
+SumUpTo(a, r) == LET a0 == a % Modulus
+                     k == Modulus - a0                      \* elements before the wrap
+                 IN IF r <= k THEN r * a0 + Tri(r) ELSE k * a0 + Tri(k) + Tri(r - k)
+RunSum(r) == IF r.t = "c" THEN r.n * r.b
+             ELSE (r.n \div Modulus) * ((Modulus * (Modulus - 1)) \div 2) + SumUpTo(r.b + r.o, r.n % Modulus)
+RECURSIVE CSum(_)
+CSum(c) == IF c = <<>> THEN 0 ELSE RunSum(Head(c)) + CSum(Tail(c))
+
+\* positions sampled on a large wrapper: both ends and the neighbourhood of every power-of-two /
+\* 65 536-byte boundary of the element types the driver uses (1, 3, 4, 8, 12, 24 bytes)
+Marks == {256, 2731, 4096, 5461, 8192, 16384, 21845, 32768, 65536}
+SampSet(n) == {p \in {0, 1, n - 2, n - 1} \cup UNION {{k - 1, k, k + 1} : k \in Marks} : p >= 0 /\ p < n}
+RECURSIVE AscSeq(_)
+AscSeq(S) == IF S = {} THEN <<>> ELSE LET m == CHOOSE x \in S : \A y \in S : x <= y IN <<m>> \o AscSeq(S \ {m})
+SampPos(n) == IF n <= Explicit THEN <<>> ELSE AscSeq(SampSet(n))
 
 \* values: everything the harness writes is chosen here and handed over in `arg`
-Fresh(s, n)   == [i \in 1..n |-> 10 * s + i]     \* initial contents of source s
+PalCont(p, s, n) == IF p = 0 \/ n < 2 THEN CPat(10 * s, 1, n)                   \* initial contents of source s
+                    ELSE CNorm(CConst(1, p - 1) \o CPat(10 * s, 2, n - 2) \o CConst(1, 256 - p))
 SrcMark(s)    == 40 + s                          \* written into a source element
 WMark(w)      == 50 + w                          \* written through wrapper slot w
-Fill(n)       == [i \in 1..n |-> 60 + i]         \* harness fill after FixedArray(size)
+Fill(n)       == CPat(60, 1, n)                  \* harness fill after FixedArray(size)
 ResizeVal(w)  == 70 + w                          \* OwnedArray::resize(n, val)
 SrcGrowVal(s) == 80 + s                          \* vector::resize(n, val)
+
+\* out-of-range indices at() is probed with: r*size() + c*2^p + d (mod 2^64); every one is >= size()
+\* for the sizes of the model (size() itself and its successor, indices that fall into range when
+\* truncated to 31 / 32 bits or when multiplied by an element size, SIZE_MAX)
+Probes == << <<1, 0, 0, 0>>, <<1, 0, 0, 1>>, <<0, 1, 31, 0>>, <<1, 1, 31, 0>>, <<0, 1, 32, 0>>, <<1, 1, 32, -1>>,
+             <<1, 1, 32, 0>>, <<0, 1, 60, 0>>, <<0, 1, 61, 0>>, <<0, 1, 62, 0>>, <<0, 1, 63, 0>>, <<1, 1, 63, 0>>,
+             <<0, 1, 64, -1>> >>
 
 -------------------------------------------------------------------------------
 \* state functions, parameterised so that they can be applied to the next state
@@ -84,10 +163,9 @@ LiveW(W) == {w \in Slots : W[w].st = "live"}
 LiveS(S) == {s \in Srcs : S[s].st = "live"}
 Dangling(W, B, w) == W[w].st = "live" /\ W[w].len > 0 /\ ~B[W[w].buf].live
 Usable(W, B, w)   == W[w].st = "live" /\ ~Dangling(W, B, w)
-ContOf(W, B, w)   == IF W[w].len = 0 THEN <<>>
-                     ELSE SubSeq(B[W[w].buf].cont, W[w].off + 1, W[w].off + W[w].len)
+ContOf(W, B, w)   == IF W[w].len = 0 THEN <<>> ELSE CSlice(B[W[w].buf].cont, W[w].off, W[w].len)
 Refd(W, S) == {W[w].buf : w \in {x \in LiveW(W) : W[x].len > 0}} \cup {S[s].buf : s \in LiveS(S)}
-SrcLen(s)  == Len(bufs[src[s].buf].cont)
+SrcLen(s)  == CLen(bufs[src[s].buf].cont)
 
 Overlap(W, B, i, j) ==
   /\ i # j /\ Usable(W, B, i) /\ Usable(W, B, j)
@@ -102,48 +180,69 @@ Loc(W, S, w) ==
        THEN [s |-> CHOOSE s \in LiveS(S) : S[s].buf = W[w].buf, off |-> W[w].off]
        ELSE [s |-> 0, off |-> 0]
 
-\* observables of one wrapper slot: size(), operator bool, at(i) for i < size(), begin()..end(),
-\* at(i) for i >= size(), data() relative to the sources, element ranges shared with other slots
+\* contents as observed: element by element (at(i) and begin()..end()), or - on large wrappers - the
+\* number of elements the iteration covers, the sums over at(i) and over the iteration, sampled positions
+ContObs(c) ==
+  IF CLen(c) <= Explicit THEN [items |-> CExpand(c), iter |-> CExpand(c)]
+  ELSE [iterlen |-> CLen(c), sum |-> CSum(c), isum |-> CSum(c),
+        samp |-> [k \in 1..Len(SampPos(CLen(c))) |-> CAt(c, SampPos(CLen(c))[k])]]
+
+\* observables of one wrapper slot: size(), operator bool, contents, at(i) for the out-of-range probes,
+\* redundant accessors agree (`same`), data() relative to the sources, element ranges shared with other slots
 WObs(W, S, B, w) ==
   IF W[w].st = "dead" THEN [st |-> "dead"]
+  ELSE IF W[w].st = "moved" THEN [st |-> "moved", valid |-> TRUE]
   ELSE IF Dangling(W, B, w) THEN [st |-> "dangling"]
   ELSE [st |-> "live", kind |-> W[w].kind, size |-> W[w].len, nonempty |-> (W[w].len > 0),
-        items |-> ContOf(W, B, w), iter |-> ContOf(W, B, w), oob |-> "throws",
-        loc |-> Loc(W, S, w), ovl |-> [j \in Slots |-> Overlap(W, B, w, j)]]
-SObs(S, B, s) == IF S[s].st = "dead" THEN [st |-> "dead"] ELSE [st |-> "live", items |-> B[S[s].buf].cont]
+        oob |-> "throws", same |-> "ok",
+        loc |-> Loc(W, S, w), ovl |-> [j \in Slots |-> Overlap(W, B, w, j)]] @@ ContObs(ContOf(W, B, w))
+SObs(S, B, s) == IF S[s].st = "dead" THEN [st |-> "dead"] ELSE [st |-> "live"] @@ ContObs(B[S[s].buf].cont)
 Obs(W, S, B) == [w |-> [i \in Slots |-> WObs(W, S, B, i)], s |-> [j \in Srcs |-> SObs(S, B, j)]]
+PosOf(W, S, B) == [w |-> [i \in Slots |-> IF Usable(W, B, i) THEN SampPos(W[i].len) ELSE <<>>],
+                   s |-> [j \in Srcs |-> IF S[j].st = "live" THEN SampPos(CLen(B[S[j].buf].cont)) ELSE <<>>]]
 
 \* smallest block id nobody refers to (a block a dangling view still refers to keeps its id)
 FreshBuf == CHOOSE b \in Bufs \ Refd(wr, src) : \A c \in Bufs \ Refd(wr, src) : b <= c
 
+Ghost(W, S, B, a, arg, cls) ==
+  [a |-> a, arg |-> arg, cls |-> cls, ns |-> NV + NA,
+   dang |-> [w \in Slots |-> Dangling(W, B, w)], moved |-> [w \in Slots |-> W[w].st = "moved"],
+   pos |-> PosOf(W, S, B), probes |-> Probes, exp |-> Obs(W, S, B)]
+
 Commit(W, S, B, a, arg, cls) ==
   LET B2 == [b \in Bufs |-> IF b \in Refd(W, S) /\ B[b].live THEN B[b] ELSE Free] IN
   /\ wr' = W /\ src' = S /\ bufs' = B2
-  /\ last' = [a |-> a, arg |-> arg, cls |-> cls, ns |-> NV + NA,
-              dang |-> [w \in Slots |-> Dangling(W, B2, w)], exp |-> Obs(W, S, B2)]
+  /\ last' = Ghost(W, S, B2, a, arg, cls)
 
+InitLast == Ghost([w \in Slots |-> DeadW], [s \in Srcs |-> DeadS], [b \in Bufs |-> Free], "Init", <<>>, "")
 Init ==
   /\ wr = [w \in Slots |-> DeadW] /\ src = [s \in Srcs |-> DeadS] /\ bufs = [b \in Bufs |-> Free]
-  /\ last = [a |-> "Init", arg |-> <<>>, cls |-> "", ns |-> NV + NA, dang |-> [w \in Slots |-> FALSE],
-             exp |-> Obs([w \in Slots |-> DeadW], [s \in Srcs |-> DeadS], [b \in Bufs |-> Free])]
+  /\ last = InitLast
 
 -------------------------------------------------------------------------------
 \* what wrapper slot w lets go of when it is destroyed / re-seated; W2 = the slot table afterwards
 Holders(W, b, ks) == {x \in LiveW(W) : W[x].len > 0 /\ W[x].buf = b /\ W[x].kind \in ks}
-Drop(B, W2, w, assigning) ==
-  LET o == wr[w]
-      keep == IF Variant = "fixed_assign_frees_viewed" /\ assigning THEN {FA} ELSE Fixed
+DropRec(B, W2, o, assigning) ==
+  LET keep == IF Variant = "fixed_assign_frees_viewed" /\ assigning THEN {FA} ELSE Fixed
   IN IF o.st # "live" \/ o.len = 0 THEN B
      ELSE IF o.kind = OA THEN [B EXCEPT ![o.buf] = Free]
      ELSE IF o.kind \in Fixed /\ Holders(W2, o.buf, keep) = {} THEN [B EXCEPT ![o.buf] = Free]
      ELSE B
+Drop(B, W2, w, assigning) == DropRec(B, W2, wr[w], assigning)
 
 \* who else designates elements of w's block (signature classes only)
 Sharers(w) == {wr[x].kind : x \in {y \in LiveW(wr) \ {w} : wr[w].len > 0 /\ wr[y].len > 0 /\ wr[y].buf = wr[w].buf}}
-Ctx(w) == IF Sharers(w) = {} THEN "sole" ELSE IF FAV \in Sharers(w) THEN "fviewed"
+Ctx(w) == IF wr[w].st = "moved" THEN "moved"
+          ELSE IF Sharers(w) = {} THEN "sole" ELSE IF FAV \in Sharers(w) THEN "fviewed"
           ELSE IF AV \in Sharers(w) THEN "viewed" ELSE "shared"
 SrcCtx(s) == (IF IsVec(s) THEN "vec" ELSE "arr") \o
              (IF \E x \in LiveW(wr) : wr[x].len > 0 /\ wr[x].buf = src[s].buf THEN ",viewed" ELSE ",unviewed")
+Seated(w) == wr[w].st \in {"live", "moved"}       \* the slot holds an object (possibly moved-from)
+
+\* (offset, length) a pointer+size input may take inside L elements: a non-empty range, or - "EdgeEmpty" -
+\* no elements at the first position or one past the last
+RangeOK(off, len, L) == \/ off >= 0 /\ len >= 1 /\ off + len <= L
+                        \/ len = 0 /\ off \in {0, L} /\ (off = 0 \/ "EdgeEmpty" \in Acts)
 
 \* admissible ways to (re)build a wrapper of kind k in slot w
 Adm(w, k, m, x, off, len) ==
@@ -152,14 +251,14 @@ Adm(w, k, m, x, off, len) ==
        [] m = "src"     -> k \in PtrKinds /\ x \in LiveS(src) /\ off = 0 /\ len = 0
        [] m = "ptr"     -> /\ k \in PtrKinds
                            /\ \/ x = 0 /\ off = 0 /\ len = 0                       \* (nullptr, 0)
-                              \/ x \in LiveS(src) /\ off >= 0 /\ len >= 1 /\ off + len <= SrcLen(x)
-       [] m = "wptr"    -> /\ k \in PtrKinds /\ x \in Slots \ {w} /\ Usable(wr, bufs, x)
-                           /\ off >= 0 /\ len >= 1 /\ off + len <= wr[x].len
-       [] m = "size"    -> k = FA /\ x = 0 /\ off = 0 /\ len \in 0..MaxLen
+                              \/ x \in LiveS(src) /\ RangeOK(off, len, SrcLen(x)) /\ (len > 0 \/ "EdgeEmpty" \in Acts)
+       [] m = "wptr"    -> /\ k \in PtrKinds /\ x \in Slots /\ (x # w \/ "SelfPtr" \in Acts) /\ Usable(wr, bufs, x)
+                           /\ RangeOK(off, len, wr[x].len) /\ (len > 0 \/ "EdgeEmpty" \in Acts)
+       [] m = "size"    -> k = FA /\ x = 0 /\ off = 0 /\ len \in Sizes
        [] m = "copy"    -> x \in Slots \ {w} /\ Usable(wr, bufs, x) /\ wr[x].kind = k
+       [] m = "move"    -> k \in Owning /\ x \in Slots \ {w} /\ Usable(wr, bufs, x) /\ wr[x].kind = k
        [] m = "fview"   -> /\ k = FAV /\ x \in Slots \ {w} /\ wr[x].st = "live" /\ wr[x].kind = FA
-                           /\ \/ off = 0 /\ len = 0
-                              \/ off >= 0 /\ len >= 1 /\ off + len <= wr[x].len
+                           /\ RangeOK(off, len, wr[x].len)
        [] OTHER -> FALSE
 
 \* the element range <<block, off, len>> the input designates
@@ -168,100 +267,113 @@ Region(m, x, off, len) ==
     [] m = "ptr"   -> IF x = 0 THEN <<0, 0, 0>> ELSE <<src[x].buf, off, len>>
     [] m = "wptr"  -> <<wr[x].buf, wr[x].off + off, len>>
     [] m = "size"  -> <<0, 0, len>>
-    [] m = "copy"  -> <<wr[x].buf, wr[x].off, wr[x].len>>
+    [] m \in {"copy", "move"} -> <<wr[x].buf, wr[x].off, wr[x].len>>
     [] m = "fview" -> IF len = 0 THEN <<0, 0, 0>> ELSE <<wr[x].buf, wr[x].off + off, len>>
     [] OTHER       -> <<0, 0, 0>>
 
-\* slot w becomes a wrapper of kind k built from the input; returns <<slot table, blocks>>
+\* slot w becomes a wrapper of kind k built from the input; returns <<slot table, blocks>>.
+\* Moving (construction / assignment from an rvalue) gives the target what copying gives it; the
+\* source is afterwards "moved": valid but unspecified - it may only be re-seated or destroyed.
 Rebuild(w, k, m, x, off, len, assigning) ==
   LET r == Region(m, x, off, len)
       aliasing == \/ k = AV
-                  \/ k \in Fixed /\ m \in {"copy", "fview"}
+                  \/ k \in Fixed /\ m \in {"copy", "move", "fview"}
                   \/ k = OA /\ m = "copy" /\ Variant = "owned_copy_aliases"
       c == IF m = "size" THEN Fill(len)
-           ELSE IF r[3] = 0 THEN <<>> ELSE SubSeq(bufs[r[1]].cont, r[2] + 1, r[2] + r[3])
+           ELSE IF r[3] = 0 THEN <<>> ELSE CSlice(bufs[r[1]].cont, r[2], r[3])
       f == FreshBuf
-      W == [wr EXCEPT ![w] = IF aliasing THEN Mk(k, r[1], r[2], r[3]) ELSE Mk(k, f, 0, Len(c))]
-      B1 == Drop(bufs, W, w, assigning)
-      B2 == IF aliasing \/ Len(c) = 0 THEN B1 ELSE [B1 EXCEPT ![f] = [live |-> TRUE, cont |-> c]]
+      W1 == [wr EXCEPT ![w] = IF aliasing THEN Mk(k, r[1], r[2], r[3]) ELSE Mk(k, f, 0, CLen(c))]
+      W  == IF m = "move" THEN [W1 EXCEPT ![x] = MovedW(k)] ELSE W1
+      B0 == Drop(bufs, W, w, assigning)
+      B1 == IF m = "move" THEN DropRec(B0, W, wr[x], FALSE) ELSE B0
+      B2 == IF aliasing \/ CLen(c) = 0 THEN B1 ELSE [B1 EXCEPT ![f] = [live |-> TRUE, cont |-> c]]
   IN <<W, B2>>
 
+End0(m, off, len) == IF len = 0 /\ off > 0 THEN ",end0" ELSE ""     \* class: no elements, one past the last
 BuildArg(w, k, m, x, off, len) ==
   [w |-> w, kind |-> k, m |-> m, x |-> x, off |-> off, len |-> len,
-   vals |-> IF m = "size" THEN Fill(len) ELSE <<>>]
+   runs |-> IF m = "size" THEN Fill(len) ELSE <<>>]
 
 -------------------------------------------------------------------------------
 \* wrapper actions
 Construct(w, k, m, x, off, len) ==
   /\ "Construct" \in Acts /\ k \in Kinds /\ wr[w].st = "dead" /\ Adm(w, k, m, x, off, len)
   /\ LET r == Rebuild(w, k, m, x, off, len, FALSE)
-     IN Commit(r[1], src, r[2], "Construct", BuildArg(w, k, m, x, off, len), k \o "," \o m)
+     IN Commit(r[1], src, r[2], "Construct", BuildArg(w, k, m, x, off, len), k \o "," \o m \o End0(m, off, len))
 
-\* operator=(std::vector&) / operator=(std::array&) / copy assignment
+\* operator=(std::vector&) / operator=(std::array&) / copy assignment / assignment from an rvalue /
+\* self-assignment (x = w, m = "copy": nothing changes)
 Assign(w, m, x) ==
-  /\ "Assign" \in Acts /\ wr[w].st = "live" /\ m \in {"src", "copy"}
+  /\ "Assign" \in Acts /\ Seated(w) /\ m \in {"src", "copy", "move"}
   /\ ~(wr[w].kind = FA /\ Ctx(w) = "fviewed" /\ "FixedArray,reassign-fviewed" \in Excl)
-  /\ Adm(w, wr[w].kind, m, x, 0, 0)
-  /\ LET r == Rebuild(w, wr[w].kind, m, x, 0, 0, TRUE)
-     IN Commit(r[1], src, r[2], "Assign", [w |-> w, m |-> m, x |-> x],
-               wr[w].kind \o "," \o m \o "," \o Ctx(w))
+  /\ IF m = "copy" /\ x = w
+     THEN /\ "SelfAssign" \in Acts /\ Usable(wr, bufs, w)
+          /\ Commit(wr, src, bufs, "Assign", [w |-> w, m |-> m, x |-> x], wr[w].kind \o ",self," \o Ctx(w))
+     ELSE /\ Adm(w, wr[w].kind, m, x, 0, 0)
+          /\ LET r == Rebuild(w, wr[w].kind, m, x, 0, 0, TRUE)
+             IN Commit(r[1], src, r[2], "Assign", [w |-> w, m |-> m, x |-> x],
+                       wr[w].kind \o "," \o m \o "," \o Ctx(w))
 
 Reset(w) ==
-  /\ "Reset" \in Acts /\ wr[w].st = "live" /\ wr[w].kind \in {AV, OA}
+  /\ "Reset" \in Acts /\ Seated(w) /\ wr[w].kind \in {AV, OA}
   /\ LET W == [wr EXCEPT ![w] = Mk(wr[w].kind, 0, 0, 0)]
      IN Commit(W, src, Drop(bufs, W, w, FALSE), "Reset", [w |-> w], wr[w].kind \o "," \o Ctx(w))
 
-\* reset(ptr, n)
+\* reset(ptr, n); with "SelfPtr" the pointer may point into the wrapper's own elements
 ResetPtr(w, m, x, off, len) ==
-  /\ "ResetPtr" \in Acts /\ wr[w].st = "live" /\ wr[w].kind \in {AV, OA} /\ m \in {"ptr", "wptr"}
+  /\ "ResetPtr" \in Acts /\ Seated(w) /\ wr[w].kind \in {AV, OA} /\ m \in {"ptr", "wptr"}
   /\ Adm(w, wr[w].kind, m, x, off, len)
   /\ LET r == Rebuild(w, wr[w].kind, m, x, off, len, FALSE)
      IN Commit(r[1], src, r[2], "ResetPtr", [w |-> w, m |-> m, x |-> x, off |-> off, len |-> len],
-               wr[w].kind \o "," \o m \o "," \o Ctx(w))
+               wr[w].kind \o "," \o m \o End0(m, off, len) \o (IF x = w /\ m = "wptr" THEN ",self," ELSE ",") \o Ctx(w))
 
 \* OwnedArray::resize(n, val): the contract lets the elements move to a new block (the old
-\* one is dead afterwards: views onto it dangle)
-Resize(w, n) ==
-  /\ "Resize" \in Acts /\ wr[w].st = "live" /\ wr[w].kind = OA /\ Usable(wr, bufs, w) /\ n \in 0..(MaxLen + 1)
+\* one is dead afterwards: views onto it dangle).  self: val is a reference to the array's own first element.
+Resize(w, n, self) ==
+  /\ "Resize" \in Acts /\ wr[w].st = "live" /\ wr[w].kind = OA /\ Usable(wr, bufs, w) /\ n \in Sizes \cup {MaxLen + 1}
+  /\ self => "SelfVal" \in Acts /\ wr[w].len > 0
   /\ LET old == ContOf(wr, bufs, w)
-         c == IF n <= Len(old) THEN SubSeq(old, 1, n) ELSE old \o [i \in 1..(n - Len(old)) |-> ResizeVal(w)]
+         v == IF self THEN CAt(old, 0) ELSE ResizeVal(w)
+         c == CResize(old, n, v)
          f == FreshBuf
          W == [wr EXCEPT ![w] = Mk(OA, f, 0, n)]
          B1 == Drop(bufs, W, w, FALSE)
          B2 == IF n = 0 THEN B1 ELSE [B1 EXCEPT ![f] = [live |-> TRUE, cont |-> c]]
-     IN Commit(W, src, B2, "Resize", [w |-> w, n |-> n, v |-> ResizeVal(w)],
-               (IF n > wr[w].len THEN "grow" ELSE IF n < wr[w].len THEN "shrink" ELSE "same") \o "," \o Ctx(w))
+     IN Commit(W, src, B2, "Resize", [w |-> w, n |-> n, v |-> v, self |-> self],
+               (IF n > wr[w].len THEN "grow" ELSE IF n < wr[w].len THEN "shrink" ELSE "same") \o
+               (IF self THEN ",selfval," ELSE ",") \o Ctx(w))
 
 \* at(i) = v through the wrapper (i is 0-based)
 Write(w, i) ==
   /\ "Write" \in Acts /\ Usable(wr, bufs, w) /\ i >= 0 /\ i < wr[w].len
-  /\ Commit(wr, src, [bufs EXCEPT ![wr[w].buf].cont[wr[w].off + i + 1] = WMark(w)],
+  /\ Commit(wr, src, [bufs EXCEPT ![wr[w].buf].cont = CSet(@, wr[w].off + i, WMark(w))],
             "Write", [w |-> w, i |-> i, v |-> WMark(w)], wr[w].kind \o "," \o Ctx(w))
 
 Destroy(w) ==
-  /\ "Destroy" \in Acts /\ wr[w].st = "live"
+  /\ "Destroy" \in Acts /\ Seated(w)
   /\ LET W == [wr EXCEPT ![w] = DeadW]
      IN Commit(W, src, Drop(bufs, W, w, FALSE), "Destroy", [w |-> w], wr[w].kind \o "," \o Ctx(w))
 
 \* source actions
-SrcMake(s, n) ==
-  /\ "SrcMake" \in Acts /\ src[s].st = "dead" /\ (IF IsVec(s) THEN n \in 0..MaxLen ELSE n = ArrLen)
+SrcMake(s, n, p) ==
+  /\ "SrcMake" \in Acts /\ src[s].st = "dead" /\ p \in Palettes
+  /\ IF IsVec(s) THEN n \in Sizes ELSE n = ArrLenOf(s)
   /\ LET f == FreshBuf
+         c == PalCont(p, s, n)
      IN Commit(wr, [src EXCEPT ![s] = [st |-> "live", buf |-> f]],
-               [bufs EXCEPT ![f] = [live |-> TRUE, cont |-> Fresh(s, n)]],
-               "SrcMake", [s |-> s, sk |-> IF IsVec(s) THEN "vec" ELSE "arr", vals |-> Fresh(s, n)],
-               IF IsVec(s) THEN "vec" ELSE "arr")
+               [bufs EXCEPT ![f] = [live |-> TRUE, cont |-> c]],
+               "SrcMake", [s |-> s, sk |-> IF IsVec(s) THEN "vec" ELSE "arr", runs |-> c],
+               (IF IsVec(s) THEN "vec" ELSE "arr") \o (IF p # 0 /\ n >= 2 THEN ",bytes" ELSE ""))
 
 SrcWrite(s, i) ==
   /\ "SrcWrite" \in Acts /\ src[s].st = "live" /\ i >= 0 /\ i < SrcLen(s)
-  /\ Commit(wr, src, [bufs EXCEPT ![src[s].buf].cont[i + 1] = SrcMark(s)],
+  /\ Commit(wr, src, [bufs EXCEPT ![src[s].buf].cont = CSet(@, i, SrcMark(s))],
             "SrcWrite", [s |-> s, i |-> i, v |-> SrcMark(s)], SrcCtx(s))
 
 \* vector::resize with reallocation: every view onto the old elements dangles afterwards
 SrcResize(s, n) ==
-  /\ "SrcResize" \in Acts /\ src[s].st = "live" /\ IsVec(s) /\ n \in 0..MaxLen /\ n # SrcLen(s)
-  /\ LET old == bufs[src[s].buf].cont
-         c == IF n <= Len(old) THEN SubSeq(old, 1, n) ELSE old \o [i \in 1..(n - Len(old)) |-> SrcGrowVal(s)]
+  /\ "SrcResize" \in Acts /\ src[s].st = "live" /\ IsVec(s) /\ n \in Sizes /\ n # SrcLen(s)
+  /\ LET c == CResize(bufs[src[s].buf].cont, n, SrcGrowVal(s))
          f == FreshBuf
      IN Commit(wr, [src EXCEPT ![s] = [st |-> "live", buf |-> f]],
                [bufs EXCEPT ![src[s].buf] = Free, ![f] = [live |-> TRUE, cont |-> c]],
@@ -272,36 +384,40 @@ SrcDestroy(s) ==
   /\ Commit(wr, [src EXCEPT ![s] = DeadS], [bufs EXCEPT ![src[s].buf] = Free],
             "SrcDestroy", [s |-> s], SrcCtx(s))
 
+\* parameter choices of the next-state relation (the actions themselves accept any admissible value)
 OffLen == IF PtrSel = "few" THEN {<<1, 2>>, <<0, 1>>}
           ELSE IF PtrSel = "some" THEN {<<0, 1>>, <<1, 2>>, <<2, 2>>, <<1, 3>>}
+          ELSE IF PtrSel = "big" THEN {<<1, 255>>, <<1, 256>>, <<255, 2>>, <<256, 1>>, <<1, 65535>>, <<1, 65536>>,
+                                      <<65535, 2>>, <<65536, 1>>, <<4095, 61441>>}
           ELSE {p \in (0..MaxLen) \X (1..MaxLen) : p[1] + p[2] <= MaxLen}
+EmptyAt == {<<o, 0>> : o \in (Sizes \cup {MaxLen + 1}) \ {0}}                 \* one past the last element, no elements
+Idx == IF PtrSel = "big" THEN {0, 1, 254, 255, 256, 257, 65534, 65535, 65536} ELSE 0..(MaxLen - 1)
 LowestDead(w) == \A x \in Slots : wr[x].st = "dead" => w <= x
 Next ==
   \/ \E w \in {x \in Slots : Sym => LowestDead(x)}, k \in Kinds :
        \/ Construct(w, k, "default", 0, 0, 0)
        \/ Construct(w, k, "ptr", 0, 0, 0)
        \/ \E s \in Srcs : Construct(w, k, "src", s, 0, 0)
-       \/ \E s \in Srcs, p \in OffLen : Construct(w, k, "ptr", s, p[1], p[2])
-       \/ \E x \in Slots, p \in OffLen : Construct(w, k, "wptr", x, p[1], p[2])
-       \/ \E n \in 0..MaxLen : Construct(w, k, "size", 0, 0, n)
-       \/ \E x \in Slots : Construct(w, k, "copy", x, 0, 0)
-       \/ \E x \in Slots : Construct(w, k, "fview", x, 0, 0)
-       \/ \E x \in Slots, p \in OffLen : Construct(w, k, "fview", x, p[1], p[2])
+       \/ \E s \in Srcs, p \in OffLen \cup EmptyAt \cup {<<0, 0>>} : Construct(w, k, "ptr", s, p[1], p[2])
+       \/ \E x \in Slots, p \in OffLen \cup EmptyAt \cup {<<0, 0>>} : Construct(w, k, "wptr", x, p[1], p[2])
+       \/ \E n \in Sizes : Construct(w, k, "size", 0, 0, n)
+       \/ \E x \in Slots : Construct(w, k, "copy", x, 0, 0) \/ Construct(w, k, "move", x, 0, 0)
+       \/ \E x \in Slots, p \in OffLen \cup EmptyAt \cup {<<0, 0>>} : Construct(w, k, "fview", x, p[1], p[2])
   \/ \E w \in Slots :
        \/ \E s \in Srcs : Assign(w, "src", s)
-       \/ \E x \in Slots : Assign(w, "copy", x)
+       \/ \E x \in Slots : Assign(w, "copy", x) \/ Assign(w, "move", x)
        \/ Reset(w)
        \/ ResetPtr(w, "ptr", 0, 0, 0)
-       \/ \E s \in Srcs, p \in OffLen : ResetPtr(w, "ptr", s, p[1], p[2])
-       \/ \E x \in Slots, p \in OffLen : ResetPtr(w, "wptr", x, p[1], p[2])
-       \/ \E n \in 0..(MaxLen + 1) : Resize(w, n)      \* one beyond the largest source: growth
-       \/ \E i \in 0..(MaxLen - 1) : Write(w, i)
+       \/ \E s \in Srcs, p \in OffLen \cup EmptyAt \cup {<<0, 0>>} : ResetPtr(w, "ptr", s, p[1], p[2])
+       \/ \E x \in Slots, p \in OffLen \cup EmptyAt \cup {<<0, 0>>} : ResetPtr(w, "wptr", x, p[1], p[2])
+       \/ \E n \in Sizes \cup {MaxLen + 1}, self \in BOOLEAN : Resize(w, n, self)   \* MaxLen + 1: growth beyond every source
+       \/ \E i \in Idx : Write(w, i)
        \/ Destroy(w)
+  \/ \E s \in Srcs, p \in Palettes :
+       \/ \E n \in Sizes \cup {ArrLenOf(s)} : SrcMake(s, n, p)
   \/ \E s \in Srcs :
-       \/ \E n \in 0..MaxLen : SrcMake(s, n)
-       \/ SrcMake(s, ArrLen)
-       \/ \E i \in 0..(MaxLen - 1) : SrcWrite(s, i)
-       \/ \E n \in 0..MaxLen : SrcResize(s, n)
+       \/ \E i \in Idx : SrcWrite(s, i)
+       \/ \E n \in Sizes : SrcResize(s, n)
        \/ SrcDestroy(s)
 
 Spec == Init /\ [][Next]_vars
@@ -310,6 +426,7 @@ Spec == Init /\ [][Next]_vars
 \* What the property states, as invariants of the model.
 TypeOK ==
   /\ \A w \in Slots : \/ wr[w] = DeadW
+                      \/ wr[w].st = "moved" /\ wr[w] = MovedW(wr[w].kind) /\ wr[w].kind \in Owning
                       \/ /\ wr[w].st = "live" /\ wr[w].kind \in AllKinds /\ wr[w].len \in 0..(MaxLen + 1)
                          /\ wr[w].off \in 0..MaxLen
                          /\ IF wr[w].len = 0 THEN wr[w].buf = 0 /\ wr[w].off = 0 ELSE wr[w].buf \in Bufs
@@ -318,7 +435,7 @@ TypeOK ==
 
 \* every wrapper that may be read designates len elements of a live block
 InBounds == \A w \in Slots : Usable(wr, bufs, w) /\ wr[w].len > 0 =>
-               bufs[wr[w].buf].live /\ wr[w].off + wr[w].len <= Len(bufs[wr[w].buf].cont)
+               bufs[wr[w].buf].live /\ wr[w].off + wr[w].len <= CLen(bufs[wr[w].buf].cont)
 
 \* only a non-owning view can be left dangling; owning arrays (and copies, and FixedArrayViews) stay valid
 OwningNeverDangles == \A w \in Slots : Dangling(wr, bufs, w) => wr[w].kind = AV
@@ -327,7 +444,7 @@ OwningNeverDangles == \A w \in Slots : Dangling(wr, bufs, w) => wr[w].kind = AV
 OwnedExclusive == \A w \in Slots : wr[w].st = "live" /\ wr[w].kind = OA /\ wr[w].len > 0 =>
                      /\ \A s \in LiveS(src) : src[s].buf # wr[w].buf
                      /\ \A x \in LiveW(wr) \ {w} : wr[x].kind \in Owning /\ wr[x].len > 0 => wr[x].buf # wr[w].buf
-                     /\ wr[w].off = 0 /\ wr[w].len = Len(bufs[wr[w].buf].cont)
+                     /\ wr[w].off = 0 /\ wr[w].len = CLen(bufs[wr[w].buf].cont)
 
 \* the Fixed family never shares a block with a source or an OwnedArray
 FixedIndependent == \A w \in Slots : wr[w].st = "live" /\ wr[w].kind \in Fixed /\ wr[w].len > 0 =>
@@ -343,17 +460,19 @@ LastAgrees == last.exp = Obs(wr, src, bufs)
 
 \* Action properties: independence.  A step of a source never changes what an owning wrapper
 \* holds; a step on wrapper slot t changes another owning wrapper only by a Write through a
-\* wrapper that shares its block (a view onto it, or the Fixed family's shared block).
+\* wrapper that shares its block (a view onto it, or the Fixed family's shared block), or by moving from it.
+Cont(W, B, w) == CExpand(ContOf(W, B, w))
 SrcActs == {"SrcMake", "SrcWrite", "SrcResize", "SrcDestroy"}
 OwnersUntouchedBySources ==
   [][last'.a \in SrcActs =>
        \A w \in Slots : wr[w].st = "live" /\ wr[w].kind \in Owning =>
-           wr'[w] = wr[w] /\ ContOf(wr', bufs', w) = ContOf(wr, bufs, w) /\ ~Dangling(wr', bufs', w)]_vars
+           wr'[w] = wr[w] /\ Cont(wr', bufs', w) = Cont(wr, bufs, w) /\ ~Dangling(wr', bufs', w)]_vars
 OwnersUntouchedByOthers ==
   [][last'.a \notin SrcActs =>
        \A w \in Slots : wr[w].st = "live" /\ wr[w].kind \in Owning /\ w # last'.arg.w =>
-           /\ ~Dangling(wr', bufs', w)
-           /\ \/ ContOf(wr', bufs', w) = ContOf(wr, bufs, w)
-              \/ last'.a = "Write" /\ wr[w].len > 0 /\ wr[last'.arg.w].buf = wr[w].buf
-                 /\ (wr[w].kind = OA => wr[last'.arg.w].kind = AV)]_vars
+           \/ wr'[w].st = "moved" /\ last'.arg.m = "move" /\ last'.arg.x = w
+           \/ /\ ~Dangling(wr', bufs', w)
+              /\ \/ Cont(wr', bufs', w) = Cont(wr, bufs, w)
+                 \/ last'.a = "Write" /\ wr[w].len > 0 /\ wr[last'.arg.w].buf = wr[w].buf
+                    /\ (wr[w].kind = OA => wr[last'.arg.w].kind = AV)]_vars
 ===============================================================================
